@@ -32,6 +32,7 @@ FIXES = [
     ("fix: read the lowercase context and batch state", "D11", ["C19"], "regress/C19/d11-enum-json-names.json"),
     ("fix: refund earned fees to the provider", "D6", ["C19"], "regress/C19/d6-refund-earned-fees-wrong-recipient.json"),
     ("fix: reject an empty deposit", "D7", ["C20"], "regress/C20/d7-empty-deposit-panics-handler.json"),
+    ("fix: skip the batch when its providers cannot be priced", "D14", ["C11", "C10"], "regress/C11/d14-stuck-context-without-exchange-rate.json"),
 ]
 
 
@@ -74,13 +75,18 @@ def run_check(d, prop, extra=None, seed="0"):
 
 
 def save(rec):
-    data = []
-    if os.path.exists(RESULTS):
-        data = json.load(open(RESULTS))
-    data = [r for r in data if not (r["kind"] == rec["kind"] and r["id"] == rec["id"])]
-    data.append(rec)
-    data.sort(key=lambda r: (r["kind"], r["id"]))
-    json.dump(data, open(RESULTS, "w"), indent=1)
+    import fcntl
+    with open(RESULTS + ".lock", "w") as lk:
+        fcntl.flock(lk, fcntl.LOCK_EX)
+        data = []
+        if os.path.exists(RESULTS):
+            data = json.load(open(RESULTS))
+        data = [r for r in data if not (r["kind"] == rec["kind"] and r["id"] == rec["id"])]
+        data.append(rec)
+        data.sort(key=lambda r: (r["kind"], r["id"]))
+        tmp = RESULTS + ".tmp%d" % os.getpid()
+        json.dump(data, open(tmp, "w"), indent=1)
+        os.replace(tmp, RESULTS)
 
 
 def commit_of(prefix):
@@ -161,7 +167,34 @@ def cmd_seeded(only):
         apply_and_test("seeded", sid, os.path.join(os.path.dirname(mf), "patch.diff"), props, seeds=("0", "1", "2"))
 
 
+def cmd_benign(only):
+    """property-preserving changes (/verif/benign/*.diff): every check must stay green (exit 0), regression replays included"""
+    allprops = ["C%02d" % i for i in range(1, 21)]
+    for f in sorted(glob.glob(os.path.join(V, "benign", "*.diff"))):
+        name = os.path.basename(f)[:-5]
+        if only and name not in only:
+            continue
+        d = worktree("benign-" + name)
+        try:
+            rc, out = sh(["git", "apply", f], cwd=d)
+            if rc != 0:
+                save({"kind": "benign", "id": name, "error": "patch does not apply: " + out[-300:]})
+                continue
+            ok, tail = baseline(d)
+            rec = {"kind": "benign", "id": name, "baseline_passes": ok, "checks": {}}
+            for p in allprops:
+                env = dict(os.environ, VERIF_REPO=d, VERIF_SEED="0")
+                t0 = time.time()
+                rc, out = sh([os.path.join(V, "check"), p, "--tier", "quick"], cwd=V, env=env)
+                lines = [l for l in out.splitlines() if l.startswith("VIOLATION") or l.startswith("  shard") or l.startswith("OK ")]
+                rec["checks"][p] = {"exit": rc, "wall_s": round(time.time() - t0, 1), "out": lines[:2]}
+                print(name, p, "exit", rc, lines[:1], flush=True)
+            save(rec)
+        finally:
+            drop(d)
+
+
 if __name__ == "__main__":
     what = sys.argv[1]
     only = set(sys.argv[2:])
-    {"fixes": cmd_fixes, "mutants": cmd_mutants, "seeded": cmd_seeded}[what](only)
+    {"fixes": cmd_fixes, "mutants": cmd_mutants, "seeded": cmd_seeded, "benign": cmd_benign}[what](only)
